@@ -626,7 +626,7 @@ def check_edwards(case, rec):
 
 def _scalars(curve):
     n = int(getattr(CV, curve).order)
-    return dict(big=n - 5, mid=(n * 2 // 3) | 1, small=3, k1=(n // 5) | 1, k2=(n // 7) | 2, d2=(n // 3) | 1, n=n)
+    return dict(big=n - 5, mid=(n * 2 // 3) | 1, small=3, k1=(n // 5) | 1, k2=(n // 7) | 2, d2=(n // 3) | 1, over=(n * 5 // 3) | 1, n=n)
 
 
 def combos(tier, curve, level):
@@ -634,7 +634,8 @@ def combos(tier, curve, level):
     s = _scalars(curve)
     gen_a = [("mul", s["big"]), ("mul_add", s["k1"], s["k2"]), ("verify", "good"), ("keygen", s["d2"])]
     gen_b = [("mul", s["mid"]), ("mul", 2), ("mul_add", s["k2"], s["k1"]), ("verify", "good"), ("verify", "bad"), ("xy",), ("to_bytes", "compressed"),
-             ("eq",), ("copy_mul", s["mid"]), ("keygen", s["k1"]), ("sign", s["k2"])]
+             ("eq",), ("copy_mul", s["mid"]), ("keygen", s["k1"]), ("sign", s["k2"]),
+             ("mul", s["over"])]  # LAST: a scalar in [4n/3, 2n) - needs the top table entries (seed C20k)
     pub_a = [("scale",), ("to_affine",), ("mul", s["mid"]), ("mul_add_other", s["k1"], s["k2"]), ("mul_add", s["k1"], s["k2"]), ("verify", "good"),
              ("xy",), ("to_bytes", "uncompressed"), ("eq",), ("eq_rev",), ("add",), ("radd",), ("neg",), ("double",)]
     pub_b = [("scale",), ("xy",), ("to_affine",), ("mul", s["big"]), ("verify", "good"), ("verify", "bad"), ("to_bytes", "hybrid"), ("eq",), ("eq_rev",),
@@ -663,6 +664,7 @@ def combos(tier, curve, level):
         # long A operations (hundreds of events) meet the four most discriminating B; short ones meet every B
         cross("gen", gen_a[:3], [gen_b[0], gen_b[3], gen_b[5], gen_b[8]])
         cross("gen", gen_a[3:], [gen_b[0], gen_b[5]])
+        cross("gen", gen_a[:1], [gen_b[-1]])
         cross("pub", [a for a in pub_a if a[0] in long_a], [pub_b[0], pub_b[1], pub_b[3], pub_b[4]])
         cross("pub", [a for a in pub_a if a[0] not in long_a], pub_b)
         cross("vkpre", pre_a[:1], [pre_b[0], pre_b[2], pre_b[3]])
@@ -676,6 +678,7 @@ def combos(tier, curve, level):
         cross("pub", [pub_a[0], pub_a[1]], [pub_b[0], pub_b[1], pub_b[3], pub_b[4], pub_b[7]])
         cross("pub", [pub_a[2], pub_a[5]], [pub_b[0], pub_b[1]])
         cross("genz", gz_a[:1], gz_b[:1])
+        cross("gen", [gen_a[0]], [gen_b[-1]])
         if level == "core":
             cross("vkpre", pre_a[:1], pre_b[1:2])
     return out
